@@ -19,7 +19,7 @@ pub const DEF: PropDef = PropDef {
     id: "C06",
     run,
     oracle,
-    rule: "cases = operation sequences Feed(parser in {A,B}, buffer of 1..3 packets) over two parser instances with independently generated allowed sets; packets come from one conformant plan over a small id pool shared by V9 and IPFIX (so an id regularly exists in both protocols and in both parsers with different meanings): template definitions, redefinitions with different field lists, changes of kind (template <-> options template), data, options data, V5/V7 packets, data for ids only the other parser knows, plus inserted truncated template packets (cut inside a template record or a flowset header), packets of versions the target parser disallows, and unknown-version garbage. Oracle: (1) after every call the public cache maps of each parser, normalised to {(protocol, kind, id) -> field list}, equal the model (latest wins, never evicts, unchanged by V5/V7, data, disallowed versions, truncated input); (2) every decodable data flowset equals the reference decode under the model's current template; (3) for each parser, every partition of its packet stream into calls (all 2^(m-1) for m <= 7 units, 48 sampled beyond; a packet that is not self-delimiting for that parser ends its call) yields identical concatenated results and final caches; (4) a fresh parser fed only B's stream ends in exactly B's state and results. Extra phase: 7..65280 (= every usable id) distinct template ids (dense runs, runs spread over the whole id space with strides 7..4099, ids that agree in their low 8..13 bits) defined over several calls, then data for ids from the whole range - nothing is evicted, no id collides with another. Excluded shape: an IPFIX set after a set with an unknown template in the same message (C05/C07). non-trivial = a redefinition with a different field list followed by data for that id, and one of: the id is live in both protocols, the two parsers' caches diverge, a truncated template packet, a disallowed-version template packet, >= 3 partitions compared; distinct by digest.",
+    rule: "cases = operation sequences Feed(parser in {A,B}, buffer of 1..3 packets) over two parser instances with independently generated allowed sets; packets come from one conformant plan over a small id pool shared by V9 and IPFIX (so an id regularly exists in both protocols and in both parsers with different meanings): template definitions, redefinitions with different field lists, changes of kind (template <-> options template), data, options data, V5/V7 packets, data for ids only the other parser knows, plus inserted truncated template packets (cut inside a template record or a flowset header), packets of versions the target parser disallows, and unknown-version garbage. Oracle: (1) after every call the public cache maps of each parser, normalised to {(protocol, kind, id) -> field list}, equal the model (latest wins, never evicts, unchanged by V5/V7, data, disallowed versions, truncated input); (2) every decodable data flowset equals the reference decode under the model's current template; (3) for each parser, every partition of its packet stream into calls (all 2^(m-1) for m <= 7 units, 48 sampled beyond; a packet that is not self-delimiting for that parser ends its call) yields identical concatenated results and final caches; (4) a fresh parser fed only B's stream ends in exactly B's state and results. Extra phase: 7..65280 (= every usable id) distinct template ids (dense runs, runs spread over the whole id space with strides 7..4099, ids that agree in their low 8..13 bits) defined over several calls, then data for ids from the whole range - nothing is evicted, no id collides with another. Extra phase: a template followed by 300..70,000 calls that do not mention it, then data for it (no expiry). Excluded shape: an IPFIX set after a set with an unknown template in the same message (C05/C07). non-trivial = a redefinition with a different field list followed by data for that id, and one of: the id is live in both protocols, the two parsers' caches diverge, a truncated template packet, a disallowed-version template packet, >= 3 partitions compared; distinct by digest.",
     assumptions: &["what a truncated V9 packet may still teach the cache: the complete template records of the complete flowsets in front of the cut (C14 states the same)"],
 };
 
@@ -627,9 +627,64 @@ pub fn many_ids_case() -> BoxedStrategy<Case> {
         .boxed()
 }
 
+/// A template, then a long stretch of traffic that does not mention it (300 .. 70,000 calls of
+/// header-only and V5 packets, data for another id), then data for it: templates persist -
+/// there is no expiry by number of calls or packets.
+pub fn idle_case() -> BoxedStrategy<Case> {
+    (
+        prop_oneof![4 => Just(300usize), 3 => Just(1100), 2 => Just(5000), 1 => Just(70000)],
+        any::<bool>(),
+        any::<u8>(),
+    )
+        .prop_map(|(n, v9, fill)| {
+            let proto = if v9 { Proto::V9 } else { Proto::Ipfix };
+            let pkt = |body: &[u8], nsets: usize| -> Vec<u8> {
+                let mut w = W::default();
+                match proto {
+                    Proto::V9 => enc_v9_header(&mut w, nsets as u16, &[1, 2, 3, 4]),
+                    Proto::Ipfix => enc_ipfix_header(&mut w, (16 + body.len()) as u16, &[1, 2, 3]),
+                }
+                w.bytes(body);
+                w.0
+            };
+            let def = |ie: u16, len: u16| Def { kind: Kind::Plain, scope_n: 0, fields: vec![FieldSpec { ie, len, ent: None }, FieldSpec { ie: 2, len: 2, ent: None }] };
+            let tset = |id: u16, d: &Def| {
+                let mut r = W::default();
+                enc_template_record(&mut r, proto, id, d);
+                let mut s = W::default();
+                enc_set(&mut s, template_set_id(proto, Kind::Plain), &r.0, 0);
+                s.0
+            };
+            let dset = |id: u16, len: usize| {
+                let mut s = W::default();
+                enc_set(&mut s, id, &(0..len).map(|i| fill.wrapping_add(i as u8 + 1)).collect::<Vec<u8>>(), 0);
+                s.0
+            };
+            let (da, db) = (def(1, 4), def(1, 8));
+            let mut calls = vec![
+                Call { parser: 0, packets: vec![pkt(&tset(256, &da), 1)] },
+                Call { parser: 0, packets: vec![pkt(&tset(257, &db), 1)] },
+                Call { parser: 0, packets: vec![pkt(&dset(256, 12), 1)] },
+            ];
+            for i in 0..n {
+                let p = match (i + fill as usize) % 4 {
+                    0 => enc_fixed(5, 0, &[0; 20], &[]),
+                    1 => pkt(&[], 0),
+                    2 => pkt(&dset(257, 10), 1),
+                    _ => enc_fixed(7, 1, &[1; 20], &[vec![2u8; 52]]),
+                };
+                calls.push(Call { parser: 0, packets: vec![p] });
+            }
+            calls.push(Call { parser: 0, packets: vec![pkt(&dset(256, 12), 1)] });
+            Case { allowed: vec![crate::engine::DEFAULT_ALLOWED.to_vec()], calls, params: Default::default() }
+        })
+        .boxed()
+}
+
 pub fn run(ctx: &Ctx) {
     ctx.replay_findings(&oracle);
     ctx.search("two-parsers-histories", ctx.n(120_000, 10_000_000), &|| c06_case(6), &oracle);
     ctx.search("many-template-ids-never-evicted", ctx.n(400, 8_000), &many_ids_case, &oracle);
     ctx.search("longer-histories", ctx.n(10_000, 1_000_000), &|| c06_case(14), &oracle);
+    ctx.search("template-survives-long-idle-stretch", ctx.n(48, 1_000), &idle_case, &oracle);
 }
